@@ -76,3 +76,9 @@ Theorem C10_root_operand_decode_invariant : forall s a,
   num_of_entry (Some (VJNum s a)) = num_of_entry (Some (VNum a)).
 Proof. intros s a. reflexivity. Qed.
 Print Assumptions C10_root_operand_decode_invariant.
+
+(* a regular-expression test (QueryAddr.rx_test, bq BX) looks at strings only: numbers in either decoding, booleans, null and
+   containers never match, whatever the expression *)
+Theorem C10_regex_matches_strings_only : forall regex_match re e, rx_test regex_match re e = true -> exists s, e = Some (VStr s).
+Proof. intros rm re e H. destruct e as [v|]; [|discriminate H]. destruct v; try discriminate H. eexists. reflexivity. Qed.
+Print Assumptions C10_regex_matches_strings_only.
